@@ -143,6 +143,8 @@ def measure(tree, ref: Ref, radii, steps, nodes, want_volume, soma_ok):
     from swcgeom.analysis.volume import get_volume
 
     fe = extract_feature(tree)
+    if (len(nodes) + int(steps if isinstance(steps, int) else 0)) % 2:
+        fe = G.HostileCaller(fe)  # (a caller that edits, in place, what it gets back)
     lm = LMeasure()
     out = {"length": float(tree.length()),
            "length_fe": float(fe.get("length")[0]),
